@@ -373,7 +373,9 @@ def selftest_mutants(args):
         res = run_against_patch(patch, [prop], runs=args.budget_runs)
         rc, fps, details, tail = res[prop]
         verdict = "CAUGHT" if rc == 1 and fps else ("HARNESS-ERROR" if rc == 2 else "MISSED")
-        if verdict != "CAUGHT":
+        if verdict == "MISSED" and any(l.strip() == "expect=unobservable" for l in meta):
+            verdict = "EQUIVALENT"  # the change cannot be observed through the public API
+        if verdict not in ("CAUGHT", "EQUIVALENT"):
             missed += 1
         print(f"{verdict:8s} {os.path.basename(patch)[:-6]:45s} property={prop} rc={rc} fingerprints={fps[:3]}")
         if verdict == "HARNESS-ERROR":
